@@ -4,7 +4,7 @@ from .common import *
 
 TRUSTED_COMMON = [
     'Coq 8.16.1 kernel + vm_compute (no native_compute)',
-    'translator /verif/translator (fails closed on unrecognised source forms)',
+    'translator /verif/translator (refuses unrecognised source forms: the check then fails closed, or -- for executable models covered by a correspondence -- falls back to the committed snapshot tied by that correspondence)',
     'harness /verif/harness + printing of Eval vm_compute results + integer diff',
 ]
 
@@ -12,9 +12,28 @@ TRUSTED_COMMON = [
 def proof_stage(rep, pid, extra_trusted=()):
     with Lock('coq'):
         ok, problems, fps = translate()
-        for p in problems:
-            rep.add_broken('translator', p['target'], p['error'])
         changed = fingerprint_changes(fps)
+        if problems:
+            # only the generated files this property's theorems and correspondence runners depend on matter to it
+            try:
+                relevant = set(gen_dependencies(model_roots(pid)))
+            except Exception:
+                relevant = None
+            for p in problems:
+                if relevant is not None and p['target'] not in relevant:
+                    rep.cov.setdefault('translator_unrelated', []).append({'target': p['target'], 'error': p['error']})
+                elif p.get('fallback'):
+                    # unrecognised source form in a K-tied executable model: the pinned tree's translation stands in as a
+                    # hand-written model, tied to the current source by the correspondence (run with the escalated budget)
+                    rep.cov.setdefault('translator_fallback', []).append({'target': p['target'], 'error': p['error']})
+                    extra_trusted = list(extra_trusted) + [
+                        'translator refused the current source form of Gen/%s (%s): the snapshot of the pinned tree\'s translation '
+                        '(translator/snapshots) is used as a hand-written model, tied to the current source by the correspondence only'
+                        % (p['target'], p['error'][:120])]
+                    if not any(c.startswith(p['generator'] + ':') for c in changed):
+                        changed.append(p['generator'] + ':<refused>')
+                else:
+                    rep.add_broken('translator', p['target'], p['error'])
         bad = hygiene()
         for b in bad:
             rep.add_broken('hygiene', b, 'forbidden construct in the Coq development')
